@@ -25,6 +25,7 @@
 (*           cols |-> <<runs of column 1, runs of column 2, ...>>]         *)
 (*   out  = [nt |-> number of tables returned, names |-> <<token, ...>>,   *)
 (*           lens |-> <<length of column 1, ...>>, cols |-> <<runs, ...>>] *)
+(*          (only the first table is described; nt tells if there are more)*)
 (*                                                                         *)
 (* Clauses(grid, hdr, out) is the admissible-output relation: exactly what *)
 (* the property states, plus the importer's documented and tested intent   *)
